@@ -1,4 +1,5 @@
-import EaselModel.Sqio.DriverLogic
-/-! Line-protocol driver for the C02 model: the shared sequence-file model (EaselModel/Sqio), ops select the behaviour. -/
+import EaselModel.Sqio.DriverMsa
+/-! Line-protocol driver for the C02 model: the shared sequence-file model (EaselModel/Sqio) + alignment files read as sequences
+    (EaselModel/Sqio/MsaSeq on the C01 reader models); ops select the behaviour. -/
 open EaselModel.Proto EaselModel.Sqio
-def main : IO Unit := runDriver ({} : DS) step
+def main : IO Unit := runDriver ({} : DS2) step2
